@@ -393,6 +393,14 @@ func (e *Exec) chanLogOf(ch Val) *ChanLog {
 	if ch.Origin == "" {
 		return nil
 	}
+	if strings.HasPrefix(ch.Origin, "chanlog:") {
+		for _, cl := range e.P.CS.ChanLogs {
+			if cl.N == ch.Origin[len("chanlog:"):] {
+				return cl
+			}
+		}
+		return nil
+	}
 	for _, cl := range e.P.CS.ChanLogs {
 		var pk *types.Package
 		if sp := e.P.SPkgs[cl.PkgPath]; sp != nil {
